@@ -1,0 +1,212 @@
+//go:build verif
+
+package hclwrite
+
+import "fmt"
+
+// VerifCheckTree walks the private node lists under f and reports the first
+// structural inconsistency it finds: a broken doubly-linked list, a node
+// whose list back-pointer disagrees with the list it is reachable from, an
+// item-set member that is not a child of its body, or a role pointer
+// (attribute name/expression, block type/labels/braces/body, ...) that does
+// not point at an attached child of its own node, in the documented order.
+// It returns nil when the tree is consistent. It never modifies the tree.
+func VerifCheckTree(f *File) error {
+	if f == nil {
+		return fmt.Errorf("nil file")
+	}
+	seen := map[*node]string{}
+	if err := verifCheckList(f.children, "file", seen); err != nil {
+		return err
+	}
+	if err := verifRole(f.children, "file.body", f.body); err != nil {
+		return err
+	}
+	if _, ok := f.body.content.(*Body); !ok {
+		return fmt.Errorf("file.body content is %T", f.body.content)
+	}
+	return verifCheckChildren(f.children, "file", seen)
+}
+
+func verifCheckList(l *nodes, path string, seen map[*node]string) error {
+	if l == nil {
+		return fmt.Errorf("%s: nil children list", path)
+	}
+	var prev *node
+	steps := 0
+	for n := l.first; n != nil; n = n.after {
+		steps++
+		if steps > 1<<22 {
+			return fmt.Errorf("%s: child list does not terminate", path)
+		}
+		if n.before != prev {
+			return fmt.Errorf("%s: child %d has wrong before pointer", path, steps-1)
+		}
+		if n.list != l {
+			return fmt.Errorf("%s: child %d (%T) has wrong list back-pointer", path, steps-1, n.content)
+		}
+		if other, dup := seen[n]; dup {
+			return fmt.Errorf("%s: child %d (%T) is also reachable from %s", path, steps-1, n.content, other)
+		}
+		seen[n] = path
+		if n.content == nil {
+			return fmt.Errorf("%s: child %d has nil content", path, steps-1)
+		}
+		prev = n
+	}
+	if l.last != prev {
+		return fmt.Errorf("%s: last pointer does not match end of list", path)
+	}
+	return nil
+}
+
+// verifRole checks that n is an attached member of l.
+func verifRole(l *nodes, what string, n *node) error {
+	if n == nil {
+		return fmt.Errorf("%s is nil", what)
+	}
+	if n.list != l {
+		return fmt.Errorf("%s is not attached to its parent's child list", what)
+	}
+	for c := l.first; c != nil; c = c.after {
+		if c == n {
+			return nil
+		}
+	}
+	return fmt.Errorf("%s is not reachable in its parent's child list", what)
+}
+
+// verifOrder checks that the given role nodes appear in l in the given order.
+func verifOrder(l *nodes, path string, names []string, roles []*node) error {
+	i := 0
+	for c := l.first; c != nil && i < len(roles); c = c.after {
+		if c == roles[i] {
+			i++
+		}
+	}
+	if i < len(roles) {
+		return fmt.Errorf("%s: %s is out of order", path, names[i])
+	}
+	return nil
+}
+
+func verifCheckSet(l *nodes, path string, set nodeSet) error {
+	for n := range set {
+		if err := verifRole(l, path+" item-set member", n); err != nil {
+			return err
+		}
+	}
+	return nil
+}
+
+func verifCheckChildren(l *nodes, path string, seen map[*node]string) error {
+	idx := 0
+	for n := l.first; n != nil; n = n.after {
+		p := fmt.Sprintf("%s/%d", path, idx)
+		idx++
+		switch c := n.content.(type) {
+		case *Body:
+			if err := verifCheckList(c.children, p+":body", seen); err != nil {
+				return err
+			}
+			if err := verifCheckSet(c.children, p+":body", c.items); err != nil {
+				return err
+			}
+			for m := c.children.first; m != nil; m = m.after {
+				switch m.content.(type) {
+				case *Attribute, *Block:
+					if !c.items.Has(m) {
+						return fmt.Errorf("%s:body has a %T child that is not in its item set", p, m.content)
+					}
+				}
+			}
+			for m := range c.items {
+				switch m.content.(type) {
+				case *Attribute, *Block:
+				default:
+					return fmt.Errorf("%s:body item set holds a %T", p, m.content)
+				}
+			}
+			if err := verifCheckChildren(c.children, p+":body", seen); err != nil {
+				return err
+			}
+		case *Attribute:
+			if err := verifCheckList(c.children, p+":attr", seen); err != nil {
+				return err
+			}
+			names := []string{"leadComments", "name", "expr", "lineComments"}
+			roles := []*node{c.leadComments, c.name, c.expr, c.lineComments}
+			for i := range roles {
+				if err := verifRole(c.children, p+":attr."+names[i], roles[i]); err != nil {
+					return err
+				}
+			}
+			if err := verifOrder(c.children, p+":attr", names, roles); err != nil {
+				return err
+			}
+			if _, ok := c.name.content.(*identifier); !ok {
+				return fmt.Errorf("%s:attr.name content is %T", p, c.name.content)
+			}
+			if _, ok := c.expr.content.(*Expression); !ok {
+				return fmt.Errorf("%s:attr.expr content is %T", p, c.expr.content)
+			}
+			if err := verifCheckChildren(c.children, p+":attr", seen); err != nil {
+				return err
+			}
+		case *Block:
+			if err := verifCheckList(c.children, p+":block", seen); err != nil {
+				return err
+			}
+			names := []string{"leadComments", "typeName", "labels", "open", "body", "close"}
+			roles := []*node{c.leadComments, c.typeName, c.labels, c.open, c.body, c.close}
+			for i := range roles {
+				if err := verifRole(c.children, p+":block."+names[i], roles[i]); err != nil {
+					return err
+				}
+			}
+			if err := verifOrder(c.children, p+":block", names, roles); err != nil {
+				return err
+			}
+			if _, ok := c.typeName.content.(*identifier); !ok {
+				return fmt.Errorf("%s:block.typeName content is %T", p, c.typeName.content)
+			}
+			if _, ok := c.labels.content.(*blockLabels); !ok {
+				return fmt.Errorf("%s:block.labels content is %T", p, c.labels.content)
+			}
+			if _, ok := c.body.content.(*Body); !ok {
+				return fmt.Errorf("%s:block.body content is %T", p, c.body.content)
+			}
+			if err := verifCheckChildren(c.children, p+":block", seen); err != nil {
+				return err
+			}
+		case *blockLabels:
+			if err := verifCheckList(c.children, p+":labels", seen); err != nil {
+				return err
+			}
+			if err := verifCheckSet(c.children, p+":labels", c.items); err != nil {
+				return err
+			}
+		case *Expression:
+			if err := verifCheckList(c.children, p+":expr", seen); err != nil {
+				return err
+			}
+			if err := verifCheckSet(c.children, p+":expr", c.absTraversals); err != nil {
+				return err
+			}
+			if err := verifCheckChildren(c.children, p+":expr", seen); err != nil {
+				return err
+			}
+		case *Traversal:
+			if err := verifCheckList(c.children, p+":traversal", seen); err != nil {
+				return err
+			}
+			if err := verifCheckSet(c.children, p+":traversal", c.steps); err != nil {
+				return err
+			}
+			if err := verifCheckChildren(c.children, p+":traversal", seen); err != nil {
+				return err
+			}
+		}
+	}
+	return nil
+}
